@@ -54,6 +54,7 @@ def parseOp (s : String) : Option XOp :=
   | ["ckeys", c] => do pure (.bop (.keys (← c.toNat?)))
   | ["cflush", c] => do pure (.bop (.flush (← c.toNat?)))
   | ["endfault", c] => do pure (.bop (.endFault (← c.toNat?)))
+  | ["endfaulttorn", c, n] => do pure (.bop (.endFaultTorn (← c.toNat?) (← n.toNat?)))
   | ["probe"] => some .probe
   | _ => none
 
